@@ -565,12 +565,12 @@ impl Database {
             #[cfg(feature = "verif")]
             crate::verif::point("db.map:inc_value");
             let mut db = self.map.write().unwrap();
-            match i32::from_str_radix(
-                &db.get(&key.to_string())
-                    .unwrap_or(&Value::from("0"))
-                    .to_string(),
-                10,
-            ) {
+            // A removed key that is still waiting for the next snapshot (tombstone) counts as absent
+            let current_value = match db.get(&key.to_string()) {
+                Some(value) if value.state != ValueStatus::Deleted => value.to_string(),
+                _ => String::from("0"),
+            };
+            match i32::from_str_radix(&current_value, 10) {
                 Ok(current) => match current.checked_add(inc) {
                     Some(next) => {
                         let next = next.to_string();
